@@ -1,6 +1,7 @@
 mod ast;
 mod driver;
 mod enumerate;
+mod fuzz_ast;
 mod fuzz_decode;
 mod fuzzrun;
 mod gen;
